@@ -132,14 +132,8 @@ func symxC12() {
 	rt.Assert((newB.local.Get(newID) != nil) == newAlive, "C12.new_session_still_registered")
 	// a third node hears the same gossip late and out of order (the solver swaps two broadcasts)
 	b3 := symxNewBroker(3, 1)
-	log := append([][]byte(nil), symxGossipLog...)
-	if n := len(log); n >= 2 {
-		i, j := int(rt.Int("swap_a", 0, int64(n-1))), int(rt.Int("swap_b", 0, int64(n-1)))
-		log[i], log[j] = log[j], log[i]
-	}
-	for _, p := range log {
-		b3.state.Distributor().NotifyMsg(p)
-	}
+	// ... or hears only the beginning of it and is then repaired by a push/pull with node 1
+	symxGossip(symxGossipLog, b1, b3)
 	md3, err3 := b3.state.SessionMetadatas().ByClientID("m", "cid")
 	if newAlive {
 		rt.Assert(err3 == nil && md3.SessionID == newID, "C12.a_node_hearing_the_gossip_out_of_order_resolves_to_the_new_session")
